@@ -59,6 +59,11 @@ def run(F, args, mem_init=None, max_steps=200000, enter=None, extern=None, keep=
             if k == "c":
                 b = v.get("bits") or 64
                 x = v.get("v")
+                if v.get("zs") is not None:
+                    try:
+                        x = int(v["zs"])
+                    except (TypeError, ValueError):
+                        pass
                 if isinstance(x, int):
                     return x & ((1 << b) - 1)
                 return None
